@@ -59,7 +59,7 @@ def ready(v): return enum('Poll', 'Ready', [v])
 
 BUILTIN_ENUMS = {
     'Option': ['None', 'Some'], 'Result': ['Ok', 'Err'], 'ControlFlow': ['Continue', 'Break'], 'Poll': ['Ready', 'Pending'],
-    'Cow': ['Borrowed', 'Owned'], 'Entry': ['Occupied', 'Vacant'], 'Either': ['Left', 'Right'], 'Bound': ['Included', 'Excluded', 'Unbounded'],
+    'Cow': ['Borrowed', 'Owned'], 'Entry': ['Occupied', 'Vacant'], 'BTreeEntry': ['Vacant', 'Occupied'], 'Either': ['Left', 'Right'], 'Bound': ['Included', 'Excluded', 'Unbounded'],
 }
 
 
